@@ -41,7 +41,8 @@ def gen(rng, tier):
             # the equalized-odds utility rejects single-class validation samples, which montecarlo's bootstrapped mean score
             # draws from a 3-point validation set: not a call sequence this property is about
             methods = [{"montecarlo": "bruteforce", "neighbor2": "neighbor"}.get(m, m) for m in methods]
-        cases.append({"methods": methods, "calls": calls, "model": ["knn", "dummy", "sgd", "ext", "rtree", "dummy"][k % 6],
+        cases.append({"methods": methods, "calls": calls, "model": ["knn", "dummy", "sgd", "ext", "rtree", "dummy", "sgd_warm", "sgd_warm"][k % 8],
+                      "nan_in_distances": k % 4 == 1,
                       "utility": utility,
                       "prov": rng.choice(["default", "grouped"]), "seed": rng.randrange(1 << 20)})
     return cases
@@ -115,6 +116,11 @@ def run_impl(c):
     meta_v = [pd.DataFrame({"m": np.arange(NV)}), pd.DataFrame({"m": np.arange(NV) + 10})] if c["model"] == "ext" else [None, None]
     provs = [rtcommon.make_provenance(c["prov"], NR) for _ in range(2)]
     Dm = [np.abs(d[0][:, None, :] - d[2][None, :, :]).sum(axis=2) + np.arange(NR).reshape(-1, 1) * 1e-3 for d in data]
+
+    if c.get("nan_in_distances"):
+        # the caller marks an unknown distance with NaN in its own precomputed matrix: the marker is the caller's
+        for D in Dm:
+            D[min(1, D.shape[0] - 1), 0] = np.nan
 
     def distance(A, B):
         for i, d in enumerate(data):
@@ -209,6 +215,7 @@ def distribution(cases, outs):
     failed = Counter(k for o in outs if isinstance(o, dict) and "checks" in o for k, v in o["checks"].items() if not v)
     return {"methods": dict(Counter(m for c in cases for m in c["methods"])), "models": dict(Counter(c["model"] for c in cases)), "utilities": dict(Counter(c.get("utility", "accuracy") for c in cases)),
             "calls": dict(Counter(k for c in cases for k, _, _ in c["calls"])), "failed_checks": dict(failed),
+            "cases_with_nan_in_the_callers_distance_matrix": sum(1 for c in cases if c.get("nan_in_distances")),
             "score_calls_with_partial_world": sum(o.get("world_calls", 0) for o in outs if isinstance(o, dict)),
             "exceptions": dict(Counter(o["exc"] for o in outs if isinstance(o, dict) and "exc" in o))}
 
